@@ -136,7 +136,7 @@ def make_repl(rng, pat, kind):
     sub = {"Si": "Ge", "O": "S", "N": "P", "Zr": "Hf", "B": "Al"}
     if rng.integers(2):
         # substitutes whose symbols BEGIN with the symbol they replace (B -> Br, N -> Ni, O -> Os): another element all the same
-        sub = {"Si": "Sn", "O": "Os", "N": "Ni", "Zr": "Zn", "B": "Br"}
+        sub = {"Si": ["Sn", "S"][int(rng.integers(2))], "O": "Os", "N": "Ni", "Zr": "Zn", "B": "Br"}      # ... or that it begins with (Si -> S)
     els, pos = [], []
     if kind == "empty":
         pass
@@ -265,6 +265,13 @@ def run_case(case, ctx):
     rep = make_repl(rng, pat, case["repl"])
     from vmon.gen import patterns
     P, R = patterns.to_atoms(pat), replcase.rep_to_atoms(rep)
+    if case["s"] % 3 == 1:
+        # force-field type labels on both patterns (as patterns read from LAMMPS data files carry them): the search pattern's
+        # and the replacement's differ for the same element - what the patterns share is decided by element and position
+        P.atom_type_labels = ["%s_3" % e for e in P.atom_type_elements]
+        if len(R):
+            R.atom_type_labels = ["%s_R" % e for e in R.atom_type_elements]
+        st.count("pattern_pairs_with_differing_type_labels")
     r = judge_call(ctx, st, case, S, P, R, pat, rep, mm)
     share_any, found, sel, rsets, expect_raise, exc, w = r
     if found is None:
@@ -303,6 +310,8 @@ def requirements(stats, tier):
         need.append("no hub atom claimed by 128 or more matches observed")
     if stats.nseen("flag_form") < 8:
         need.append("forms of the ignore flag observed: %s" % sorted(stats.sets.get("flag_form", [])))
+    if stats.get("pattern_pairs_with_differing_type_labels") < (50 if tier == "quick" else 5000):
+        need.append("pattern pairs with differing type labels: %d" % stats.get("pattern_pairs_with_differing_type_labels"))
     if stats.nseen("topology") < 5 or stats.nseen("repl") < len(REPLS):
         need.append("not all topologies / replacement kinds observed")
     return need
